@@ -159,6 +159,8 @@ class Exec:
 
     def lift(self, v, qual=None) -> Term:
         """python constant -> term"""
+        if isinstance(v, Term):
+            return v  # an item of a static table that is already a term (a class, a function)
         if isinstance(v, (list, dict, set)) or (isinstance(v, tuple) and len(v) > 16):
             return self.static(qual or "anon%d" % fresh_uid(), v)
         return C(v)
@@ -282,7 +284,7 @@ class Exec:
                 o.exact = bool(self.sym_bytes)
                 o.is_gen = True
                 fr.yields = lst.args[0]
-            end = self.block(fi.node.body, st)
+            end = self.block(self._body_of(fi), st)
             finals: List[Tuple[Term, State]] = list(fr.returns)
             if end is not None:
                 self.emit("return", fi.node, end, value=NONE, implicit=True)
@@ -307,6 +309,27 @@ class Exec:
             return val, st
         finally:
             self.frames.pop()
+
+    def _body_of(self, fi: FuncInfo):
+        """the statements of a function, with the idioms that have an equivalent plain form written in that form (see bfsa/fuse.py)"""
+        cache = self.prog.__dict__.setdefault("_body_cache", {})
+        key = id(fi.node)
+        if key not in cache:
+            body = fi.node.body
+            if isinstance(fi.node, (ast.FunctionDef, ast.AsyncFunctionDef)):
+                from .fuse import zip_lists_to_dict
+
+                new = zip_lists_to_dict(fi.node)
+                if new is not None:
+                    body = new.body
+                else:
+                    from .fuse import rotate_deferred
+
+                    rot = rotate_deferred(fi.node)
+                    if rot is not None:
+                        body = rot
+            cache[key] = (fi.node, body)
+        return cache[key][1]
 
     def _merge_returns(self, finals):
         # two return paths whose facts are a common prefix followed by (c, True) / (c, False) were separated by the test c: their values merge under c
